@@ -101,3 +101,8 @@ pub proof fn lemma_pre_assoc(a: Seq<u8>, b: Seq<u8>, o: Option<Seq<u8>>)
 {
     match o { None => {}, Some(r) => { assert(a + (b + r) =~= (a + b) + r); } }
 }
+
+/// Latin-1: every byte is the code point of the same number
+pub open spec fn latin1(b: Seq<u8>) -> Seq<char> { Seq::new(b.len(), |i: int| b[i] as char) }
+/// a normalised element is well-escaped: every '%' is followed by two hex digits
+pub open spec fn well_escaped(s: Seq<u8>) -> bool { decode_from(s, 0, false) is Some }
